@@ -1,6 +1,7 @@
 package props
 
 import (
+	"bytes"
 	"errors"
 	"fmt"
 	"io"
@@ -33,8 +34,67 @@ func init() {
 	})
 }
 
+// c17huge: one line of 1-3 MiB that arrives in 3-6 fragments (a child process
+// printing one enormous line through io.Copy), between ordinary lines.
+func c17huge(c *Ctx) {
+	g := c.G
+	core, logs := observer.New(zapcore.DebugLevel)
+	wr := &zapio.Writer{Log: zap.New(core), Level: zapcore.InfoLevel}
+	nFrag := 3 + g.Draw(4)
+	var want []string
+	var line []byte
+	c.Nontrivial = true
+	write := func(p []byte) bool {
+		if n, err := wr.Write(p); n != len(p) || err != nil {
+			c.Fail("C17: Write did not report all bytes as consumed", "huge-line member: Write(%d bytes) returned (%d, %v)", len(p), n, err)
+			return false
+		}
+		return true
+	}
+	if !write([]byte("before\n")) {
+		return
+	}
+	want = append(want, "before")
+	var sizes []int
+	for i := 0; i < nFrag; i++ {
+		sz := pick(g, 10, 4096, 300<<10, 700<<10, 1<<20)
+		sizes = append(sizes, sz)
+		frag := bytes.Repeat([]byte{byte('a' + i)}, sz)
+		line = append(line, frag...)
+		if !write(frag) {
+			return
+		}
+	}
+	if !write([]byte("tail\nafter\npartial")) {
+		return
+	}
+	want = append(want, string(line)+"tail", "after")
+	if err := wr.Close(); err != nil {
+		c.Fail("C17: Close returned an error", "%v", err)
+		return
+	}
+	want = append(want, "partial")
+	c.Describe("member=huge-line fragments=%v", sizes)
+	got := logs.All()
+	if len(got) != len(want) {
+		c.Fail("C17: the logged messages are not exactly the lines of the stream", "huge-line member: %d messages, %d lines", len(got), len(want))
+		return
+	}
+	for i := range want {
+		if got[i].Message != want[i] {
+			c.Fail("C17: the logged messages are not exactly the lines of the stream", "huge-line member: message %d has %d bytes, the line %d (fragments %v)", i, len(got[i].Message), len(want[i]), sizes)
+			return
+		}
+	}
+	c.R.Probe("a line of up to several MiB in 3-6 fragments")
+}
+
 func runC17(c *Ctx) {
 	g, r := c.G, c.R
+	if g.Chance(150) {
+		c17huge(c)
+		return
+	}
 	// ---- stream ----
 	n := g.Draw(241)
 	nlDensity := pick(g, 2, 4, 8, 30, 1000)
